@@ -1,4 +1,5 @@
 import BHS.Props.C10
+import BHS.Props.AuthMw
 open BHS.Props.C10
 #print axioms C10_auth_iff
 #print axioms C10_http
@@ -20,3 +21,8 @@ open BHS.Props.C10
 #print axioms C10_admin_always_counterexample
 #print axioms C10_distinct
 #print axioms C10_distinct_needs_fresh
+#print axioms BHS.Props.AuthMw.AuthMw_getToken
+#print axioms BHS.Props.AuthMw.AuthMw_authorize
+#print axioms BHS.Props.AuthMw.C10_auth_iff_generated
+#print axioms BHS.Props.AuthMw.C10_ws_generated
+#print axioms BHS.Props.AuthMw.C10_rejected_generated
